@@ -14,7 +14,7 @@ MODULE_KINDS = ('use', 'forward')
 PLACEMENTS = ['a.scss', 'd/b.scss', '_p.scss', 'd/_q.scss', 'c.scss', 'd/e/f.scss', 'd/g.scss', 'h.scss',
               'k/_index.scss', 'k/z.scss', 'k/s/y.scss', 'd/m/index.scss']
 KEEP = {'d/_keep.scss': '', 'd/e/_keep.scss': '', 'k/_keep.scss': '', 'k/s/_keep.scss': '', 'd/m/_keep.scss': ''}
-VARIANTS = ('plain', 'dot', 'updown', 'ext', 'underscore', 'dotdot2', 'enddot')
+VARIANTS = ('plain', 'dot', 'updown', 'ext', 'underscore', 'dotdot2', 'enddot', 'rootrel')
 
 
 def _rel(importer, target):
@@ -32,11 +32,25 @@ def spell(importer, target, variant):
     join = lambda h, b: (h + '/' + b) if h else b
     plain = join(head, bare)
     is_index = bare == 'index'
+    idir = posixpath.dirname(importer)
     if is_index:
         # a directory index is loaded through the URL of its directory ('.' when the importer lives in it)
         plain = head if head else '.'
     if variant == 'enddot':
         return plain + '/.' if is_index else None
+    if variant == 'rootrel':
+        # the path from the root, written in a file that lives in a sub-directory: not found relative to the importer,
+        # found when the url is tried unchanged (the root is the loader's base)
+        if idir == '':
+            return None
+        thead, tbase = posixpath.split(target)
+        tstem = tbase[:-5] if tbase.endswith('.scss') else tbase
+        tbare = tstem[1:] if tstem.startswith('_') else tstem
+        if tbare == 'index':
+            return thead or None
+        root_url = join(thead, tbare)
+        # must not also exist relative to the importer: no placement has the same name below another directory
+        return root_url if root_url != plain else None
     idir = posixpath.dirname(importer)
     if variant == 'plain':
         return plain
